@@ -161,11 +161,13 @@ if FAST is not None:
                      'VEC_OK(ruleResult->dependencies.items, struct KeyIDAndFlags) && ruleResult->dependencies.items.cap <= 512',
                      '!self->dbMutex.held', 'error_out->len == 0 && g_errors == 0 && g_enc_n == 0 && g_getkey_calls == 0 && g_stepped == 0', 'g_k < 512',
                      'g_k < ruleResult->dependencies.items.len ==> (ruleResult->dependencies.items.ptr[g_k].singleUse <= 1 && ruleResult->dependencies.items.ptr[g_k].orderOnly <= 1)',
-                     'ruleResult->start == ruleResult->start && ruleResult->end == ruleResult->end'],     # times are not NaN
-        'assigns': ['*error_out', 'self->dbMutex.held', 'g_errors', 'g_bound_stmt', 'g_enc_n', '__CPROVER_object_whole(g_enc_words)', 'g_getkey_calls', 'g_getkey_last',
+                     'ruleResult->start == ruleResult->start && ruleResult->end == ruleResult->end', 'g_execs == 0'],     # times are not NaN
+        'assigns': ['g_execs', 'g_exec_sql', '*error_out', 'self->dbMutex.held', 'g_errors', 'g_bound_stmt', 'g_enc_n', '__CPROVER_object_whole(g_enc_words)', 'g_getkey_calls', 'g_getkey_last',
                     '__CPROVER_object_whole(g_bind_i64)', '__CPROVER_object_whole(g_bind_ptr)', '__CPROVER_object_whole(g_bind_bytes)', '__CPROVER_object_whole(g_bind_dbl)', 'g_stepped'],
         'ensures': [
             ('P:C03', '!g_open_ok ==> !RESULT'), ('P:C03', '!self->dbMutex.held'),
+            # writing a result executes no statement of its own besides the prepared insert: in particular no END / BEGIN, so the build stays ONE transaction
+            ('P:C04', 'g_execs == 0'),
             # success means the row was written by stepping the insert statement to completion
             ('P:C03,P:C04', 'RESULT ==> (g_stepped == 1 && g_bound_stmt == self->insertIntoRuleResultsStmt && g_step_result == 101)'),
             # every field of the result is bound to the column the table declares for it (the order lookupRuleResult reads by name)
